@@ -4,6 +4,7 @@ import (
 	"fmt"
 	"math/rand"
 	"runtime"
+	"sort"
 	"strings"
 
 	"github.com/parsyl/parquet/verifkit/ref/dremel"
@@ -196,7 +197,7 @@ func fragPatterns(c *Ctx, fileID string) []fragPattern {
 }
 
 func runC08(c *Ctx) {
-	for _, f := range append(ioWorkload(c, false), alignedFiles(c)...) {
+	for _, f := range append(append(ioWorkload(c, false), alignedFiles(c)...), xlFiles(c)...) {
 		if c.Only != "" && !strings.HasPrefix(c.Only, f.ID+"/") {
 			continue
 		}
@@ -212,7 +213,7 @@ func runC08(c *Ctx) {
 		}
 		c.Out.Count("files", 1)
 		for _, p := range fragPatterns(c, f.ID) {
-			if f.Kind == "aligned" && p.Name != "chunk1" && p.Name != "chunk7" && p.Name != "chunk4096" && p.Name != "random0" && p.Name != "every3th-call-short" {
+			if (f.Kind == "aligned" || f.Kind == "xl") && p.Name != "chunk1" && p.Name != "chunk7" && p.Name != "chunk4096" && p.Name != "random0" && p.Name != "every3th-call-short" {
 				continue
 			}
 			id := f.ID + "/" + p.Name
@@ -605,6 +606,7 @@ func runC11(c *Ctx) {
 	runC11Big(c)
 	runC11Trailer(c)
 	runC11Resonant(c)
+	runC11Embedded(c)
 	if c.Thorough {
 		runC11Large(c)
 	}
@@ -926,4 +928,166 @@ func runC11Resonant(c *Ctx) {
 			checkPrefix(c, f, pf, file, cut, id)
 		}
 	}
+}
+
+// xlFiles: one page body larger than 1 MiB (big values), for the properties in
+// which buffer-size thresholds matter.
+func xlFiles(c *Ctx) []*ioFile {
+	var out []*ioFile
+	for _, sh := range c.SelShapes() {
+		if sh.Name != "p8" {
+			continue
+		}
+		s := sh.Schema()
+		for _, codec := range []int{0, 1, 2} {
+			id := fmt.Sprintf("%s/%s/xl-page/0", sh.Name, CodecNames[codec])
+			rng := Rng(c.Seed, "iofile/"+id)
+			var recs []*dremel.Tree
+			for i := 0; i < 26; i++ {
+				recs = append(recs, genTree(s, rngChooser{rng}, bigStrings{rng}, lensSmall))
+			}
+			out = append(out, &ioFile{ID: id, Shape: sh, Codec: codec, Page: 1000, Recs: recs, Part: []int{20, 6}, Kind: "xl"})
+		}
+	}
+	return out
+}
+
+// bigStrings makes every string 48-70 KiB of incompressible bytes.
+type bigStrings struct{ r *rand.Rand }
+
+func (b bigStrings) Leaf(n *dremel.GNode) pqfile.Val {
+	if n.Type == pqfile.TByteArray {
+		return pqfile.Val{S: LongString(48*1024+b.r.Intn(22*1024), b.r.Int())}
+	}
+	return randomVals{b.r}.Leaf(n)
+}
+
+// prefixIsValidFile: the reference's verdict on whether a byte string is by
+// itself a well-formed Parquet file (then a reader accepting it is right).
+func prefixIsValidFile(b []byte) bool {
+	pf, err := pqfile.Parse(b)
+	if err != nil {
+		return false
+	}
+	if _, err := pqfile.BuildTree(pf.Schema); err != nil {
+		return false
+	}
+	for _, rg := range pf.RowGroups {
+		for _, ch := range rg.Columns {
+			ch := ch
+			if !ch.HasMeta {
+				return false
+			}
+			st := ChunkStart(&ch)
+			if st < 4 || st+ch.TotalComp > int64(pf.FooterOff) {
+				return false
+			}
+			if _, err := pqfile.WalkChunk(b, st, ch.TotalComp); err != nil {
+				return false
+			}
+		}
+	}
+	return true
+}
+
+// runC11Embedded: files whose string VALUES contain the footer of a shorter
+// version of the same file followed by trailer-like bytes (length words and
+// magic in various arrangements). Every prefix is swept; a prefix that is by
+// itself a valid file according to the reference is not judged (no reader can
+// tell it from a complete file), every other prefix must be refused.
+func runC11Embedded(c *Ctx) {
+	le := func(n int) string { return string([]byte{byte(n), byte(n >> 8), byte(n >> 16), byte(n >> 24)}) }
+	for _, sh := range c.SelShapes() {
+		sc := sh.Schema()
+		// a required top-level string column to carry the payload
+		slot := -1
+		for i, k := range sc.Root.Kids {
+			if k.Leaf && k.Rep == pqfile.Required && k.Type == pqfile.TByteArray {
+				slot = i
+				break
+			}
+		}
+		if slot < 0 {
+			continue
+		}
+		var counter uint64
+		pool, _ := EnumStructures(sc, lensSmall, 8, &counter)
+		first := pool[:3]
+		fa := &ioFile{ID: sh.Name + "/embedded/base", Shape: sh, Codec: 0, Page: 1000, Recs: first, Part: []int{3}}
+		fileA, ok := fa.write(c)
+		if !ok {
+			continue
+		}
+		pa, err := pqfile.Parse(fileA)
+		if err != nil {
+			continue
+		}
+		F := string(fileA[pa.FooterOff : pa.FooterOff+pa.FooterLen])
+		L := len(F)
+		tails := map[string]string{
+			"len+8,magic,len+8,junk": le(L+8) + "PAR1" + le(L+8) + "JUNK",
+			"len,magic,junk":         le(L) + "PAR1" + "JUNKJUNK",
+			"len+4,magic,len+4":      le(L+4) + "PAR1" + le(L+4),
+			"magic,len,magic":        "PAR1" + le(L) + "PAR1",
+			"len,len,magic,magic":    le(L) + le(L) + "PAR1" + "PAR1",
+			"len+8,magic,len,magic":  le(L+8) + "PAR1" + le(L) + "PAR1",
+			"len-4,magic":            le(L-4) + "PAR1",
+			"len+12,junk,magic,len":  le(L+12) + "JUNK" + "PAR1" + le(L+12) + "XXXX",
+		}
+		names := make([]string, 0, len(tails))
+		for k := range tails {
+			names = append(names, k)
+		}
+		sort.Strings(names)
+		for _, tn := range names {
+			id0 := fmt.Sprintf("%s/embedded/%s", sh.Name, tn)
+			if c.Only != "" && !strings.HasPrefix(c.Only, id0+"/") {
+				continue
+			}
+			// second row group: a record whose string column holds footer + tail
+			carrier := cloneTree(pool[3])
+			carrier.Kids[slot] = &dremel.Tree{IsLeaf: true, V: pqfile.Val{S: F + tails[tn]}}
+			recs := append(append([]*dremel.Tree{}, first...), carrier, pool[4])
+			f := &ioFile{ID: id0, Shape: sh, Codec: 0, Page: 1000, Recs: recs, Part: []int{3, 2}, Kind: "embedded"}
+			file, ok := f.write(c)
+			if !ok {
+				continue
+			}
+			pf, err := pqfile.Parse(file)
+			if err != nil {
+				continue
+			}
+			if c.Shard == 0 {
+				c.Out.Count("embedded_footer_files", 1)
+			}
+			for cut := 0; cut < len(file); cut++ {
+				id := fmt.Sprintf("%s/cut=%d", id0, cut)
+				if !c.Take(id) {
+					continue
+				}
+				if prefixIsValidFile(file[:cut]) {
+					c.Out.Count("embedded_prefixes_that_are_valid_files_by_themselves", 1)
+					continue
+				}
+				c.Out.Count("embedded_footer_cuts", 1)
+				checkPrefix(c, f, pf, file, cut, id)
+			}
+		}
+	}
+}
+
+func cloneTree(t *dremel.Tree) *dremel.Tree {
+	if t == nil {
+		return nil
+	}
+	o := *t
+	o.Kids = nil
+	o.List = nil
+	for _, k := range t.Kids {
+		o.Kids = append(o.Kids, cloneTree(k))
+	}
+	for _, k := range t.List {
+		o.List = append(o.List, cloneTree(k))
+	}
+	return &o
 }
